@@ -11,13 +11,14 @@ import (
 // (re)configured per scenario: knobs, point counters, armed faults and, for concurrent
 // profiles, the cooperative scheduler.
 type simHooks struct {
-	mu        sync.Mutex
-	knobs     map[string]int64
-	hits      map[string]int64
-	onPoint   func(owner any, name string, hit int64) // called outside mu
-	onFault   func(owner any, name string, hit int64) error
-	onFaultOn func(owner any, name string, subject any, hit int64) error
-	sched     *Sched
+	mu            sync.Mutex
+	knobs         map[string]int64
+	hits          map[string]int64
+	onPoint       func(owner any, name string, hit int64) // called outside mu
+	onFault       func(owner any, name string, hit int64) error
+	onFaultOn     func(owner any, name string, subject any, hit int64) error
+	onPointAlways func(name string)
+	sched         *Sched
 }
 
 var hooks = &simHooks{knobs: map[string]int64{}, hits: map[string]int64{}}
@@ -46,6 +47,7 @@ func ResetHooks(sc *Scenario) {
 	hooks.onPoint = nil
 	hooks.onFault = nil
 	hooks.onFaultOn = nil
+	hooks.onPointAlways = nil
 	hooks.sched = nil
 }
 
@@ -82,6 +84,9 @@ func (h *simHooks) Release(owner any, kind string, obj any) {
 
 func (h *simHooks) Point(owner any, name string) {
 	n := h.count(name)
+	if f := h.onPointAlways; f != nil {
+		f(name)
+	}
 	if f := h.onPoint; f != nil {
 		f(owner, name, n)
 	}
